@@ -34,13 +34,14 @@ func cellOf(i int, seed int64, cells int) int {
 func TestProp(t *testing.T) {
 	env := vh.GetEnv()
 	rep := vh.NewReport("C08", "exploration")
-	rep.Rule("six streams against the full NewAuthenticatorMux (Okta provider, scripted TLS IdP that answers positively for every token a case uses): " +
+	rep.Rule("seven streams against the full NewAuthenticatorMux (Okta provider, scripted TLS IdP that answers positively for every token a case uses): " +
 		"c08-cred strides over id-placement(10) x secret-placement(11) x method-slot(12: half the endpoint's own method) x endpoint(4), payload valid 3/4 of the time; " +
 		"c08-code strides over code-class slots(21) x sub-variant(8) x credential placement(4) on POST /redeem with right credentials; " +
 		"c08-path strides over path/Host variant(33) x endpoint(4) x credential mode(5) with raw request targets. " +
 		"c08-seq (history) strides over endpoint(4) x scenario(5 slots: same-endpoint x2, other-endpoints, interleaved-two-subjects, unauthorised-first) x pause(11 slots: 0 / 50 ms / 1.1 s): per case a sequential conversation on one stack about SHARED subject values (token, refresh token, code, e-mail+groups): an authorised call that succeeds, then the same subject with missing / partial / wrong / swapped credentials on the same endpoint and on the other endpoints its tokens fit, or interleaved with a never-authorised second subject; IdP calls are counted per step. " +
 		"c08-piece strides over endpoint(4) x which-credential-is-wrong(2) x derivation slot(12) x first/last/random piece(3) x placement(2): one credential exact, the other DERIVED FROM PARTS of the configured value, own method, valid payload, 4/5 of the cases on the stacks whose configured id/secret contain separators, padding, quoting. " +
 		"c08-sparse strides over empty-field mask(128 subsets of refresh_token, access_token, email, user, groups, authorized_upstream, slug) x empty-vs-key-absent(2) x mode(3 slots: sequential x2, 3 goroutines at once): per case one stack redeems, with right credentials, genuine codes of a FULL session and of SPARSE sessions in orders where a full one precedes (full A, sparse B, sparse C, full D ...); every 2xx body must equal the redeemed session's own values (empty stays empty) and contain no value of any other session of the case. " +
+		"c08-alt strides over credential-like material(21: freshly signed redirect_uri/ts/sig triple as in a proxy-issued sign_in URL, in query/form/headers, stale or signed with another secret; the authenticator's own sealed session cookie; a genuine code / a valid access token as bearer; Basic auth without the secret / with the IdP credentials; request HMAC and HS256 client_assertion made with the secret; SHA-256, base64, hex forms of the secret, the redirect signature, a code, a token sent AS client_secret) x endpoint(4) x secret absent/wrong(2) x query/form(2): right client id, own method, valid payload, IdP scripted positively for every token involved; each case first sends the same request without the material (control). " +
 		"Concrete tokens, e-mails, near-miss values and mutation positions are random per case. distinct = the abstract dimension tuple, counted only when the server answered")
 	rep.Assume("the fake IdP answers exactly as scripted and logs every call it receives; calls are attributed to cases by per-case unique token keys")
 	rep.Assume("a value is 'presented' when it is in the request as client_id (query or form) / client_secret (form, query) / X-Client-Secret header; the same value under any other name is not")
@@ -89,6 +90,9 @@ func TestProp(t *testing.T) {
 	if only, skip := env.Only("c08-sparse"); !skip {
 		runSparse(rep, env, stacks, env.Pick(192, 4608), only)
 	}
+	if only, skip := env.Only("c08-alt"); !skip {
+		runAlt(rep, env, stacks, env.Pick(672, 6720), only)
+	}
 	rep.Extra("wall_workload_s", time.Since(start).Seconds())
 
 	for _, s := range stacks {
@@ -111,6 +115,13 @@ func TestProp(t *testing.T) {
 		"path_plain_ok_2xx": 1, "path_variant_refused_without_credentials": 20,
 		"seq_unauthorised_after_authorised_pause_50ms": 10, "seq_unauthorised_after_authorised_pause_1100ms": 3,
 	}
+	seenFam := map[string]bool{}
+	for _, m := range altMaterials {
+		if m.family != "basic-auth-right-pair" && !seenFam[m.family] {
+			seenFam[m.family] = true
+			floors["alt_material_refused_"+m.family] = 8
+		}
+	}
 	floors["sparse_redeem_2xx_after_redeem_of_a_full_session"] = 100
 	floors["sparse_redeem_2xx_concurrent"] = 50
 	floors["sparse_redeem_2xx_key_absent_from_sealed_json"] = 50
@@ -120,6 +131,7 @@ func TestProp(t *testing.T) {
 	floors["piece_of_configured_id_refused_on_separator_stack"] = 100
 	floors["piece_of_configured_secret_refused_on_separator_stack"] = 100
 	for _, e := range endpoints {
+		floors["alt_material_refused_"+e.name] = 50
 		floors["piece_of_configured_id_refused_"+e.name] = 20
 		floors["piece_of_configured_secret_refused_"+e.name] = 20
 		floors["ok_2xx_"+e.name+"_on_separator_stack"] = 3
